@@ -481,6 +481,59 @@ example : (match Itext.run (Pyxv.C07.ex1 (Pyxv.C07.tr [("French", "B")])) with |
     ianaOfSurvey (fun c => c = "en".toList) (Pyxv.C07.ex1 (Pyxv.C07.tr [("French", "B")])) = [W.iana ["French".toList]] := by
   decide +kernel
 
+/-! ## Everything the conversion emits: workbook warnings and the IANA warning -/
+
+/-- when every form language has at least 3 characters (the complement of open finding F39) the IANA warning of the
+    model is literally the one due -/
+theorem iana_survey_eq (isTag : Str → Bool) (x : Itext.Survey)
+    (hlen : ∀ langs, surveyLanguages x = some langs → ∀ l ∈ langs, 3 ≤ l.length) :
+    ianaOfSurvey isTag x = Spec.ianaDueOfSurvey isTag x := by
+  unfold ianaOfSurvey Spec.ianaDueOfSurvey
+  cases hl : surveyLanguages x with
+  | none => rfl
+  | some langs =>
+    have h3 := hlen langs hl
+    have : languagesWithBadTags isTag langs = langs.filter (ianaDue isTag) := by
+      unfold languagesWithBadTags
+      apply List.filter_congr
+      intro l hmem
+      have hl3 : ¬ l.length < 3 := by have := h3 l hmem; omega
+      simp only [badTag, ianaDue, hasValidCode, hl3, decide_false, Bool.or_false]
+      by_cases hd : l = defaultLang
+      · simp [hd]
+      · cases langCode l <;> simp [hd]
+    simp only [ianaWarning, Spec.ianaDueW, this]
+
+section Multiset
+open List
+/-- **The oracle's statement on the model.**  Workbook warnings followed by the IANA warning of the built survey are a
+    permutation of everything due (`Spec.dueOn` and `Spec.ianaDueOfSurvey`), for every workbook the model converts whose
+    translatable headers are `col` / `col::lang` and whose form languages have at least 3 characters. -/
+theorem all_warnings_perm (lower : Str → Str) (isTag : Str → Bool) (wb : WB) (v : View) (x : Itext.Survey)
+    (res : Res) (ws : List W)
+    (hsv : trShort surveyTrTable v.svHeaders = true) (hch : trShort choicesTrTable v.chHeaders = true)
+    (hlen : ∀ langs, surveyLanguages x = some langs → ∀ l ∈ langs, 3 ≤ l.length)
+    (h : convertOn lower wb v [] = .ok (res, ws)) :
+    ws ++ ianaOfSurvey isTag x ~ dueOn lev lower wb v ++ Spec.ianaDueOfSurvey isTag x := by
+  rw [iana_survey_eq isTag x hlen]
+  exact List.Perm.append_right _ (model_meets_spec_perm lower wb v res ws hsv hch h)
+end Multiset
+
+/-- non-vacuity: a survey whose languages are `French` and `English (en)` meets the length hypothesis; C07's `ex1`
+    (languages `en`, `fr`, `es`) does not — there model and specification differ, which is open finding F39 -/
+def exLangs : Itext.Survey :=
+  { defaultLanguage := "default".toList
+    lists := []
+    root := .node (Pyxv.C07.q .group "data" .none .none .none) [
+      .node (Pyxv.C07.q .control "a" (Pyxv.C07.tr [("French", "A"), ("English (en)", "B")]) .none .none) []] }
+
+example : surveyLanguages exLangs = some ["French".toList, "English (en)".toList] ∧
+    ianaOfSurvey (fun c => c = "en".toList) exLangs = [W.iana ["French".toList]] ∧
+    ianaOfSurvey (fun c => c = "en".toList) exLangs = Spec.ianaDueOfSurvey (fun c => c = "en".toList) exLangs ∧
+    ianaOfSurvey (fun c => c = "en".toList) (Pyxv.C07.ex1 (Pyxv.C07.tr [("French", "B")]))
+      ≠ Spec.ianaDueOfSurvey (fun c => c = "en".toList) (Pyxv.C07.ex1 (Pyxv.C07.tr [("French", "B")])) := by
+  decide +kernel
+
 /-! ## the tables the triggers are read from (pinned: the documented sets) -/
 
 /-- the implementation's subtag reader (`read_tags`) agrees with a plain reading of the two IANA files (split on
